@@ -696,6 +696,75 @@ theorem gainCore_good {cfg : GainCfg} (good : GoodCfg cfg) (n k : Nat) (limit : 
       have := single_le_sumTo lc.get k c (fun x hx => by rcases hbits x hx with q | q <;> omega) hc
       omega
 
+/-! ### helpers for Properties/C07.lean: switch, outer loop, argmin -/
+
+theorem balanced_of_switch (D : Mat) (n k : Nat) (perm : List Nat) (hp : ∀ j, j ∈ perm → j < n) (lab : Arr Nat)
+    (h : Balanced lab n k) : Balanced (switchClusters D perm lab) n k := by
+  intro c hc
+  rw [(switchClusters_inv D n k perm hp lab).1 c]; exact h c hc
+
+theorem outerGuard_iff (iter maxIter : Int) : C07.outerGuard iter maxIter = true ↔ iter < maxIter := by
+  unfold C07.outerGuard; simp <;> omega
+
+theorem iterNext_eq (iter : Int) : C07.iterNext iter = iter + 1 := by
+  unfold C07.iterNext; rfl
+
+theorem outerLoop_inv {α} (assoc : Arr Nat → α → Option (Arr Nat)) (P : Arr Nat → Prop) (maxIter : Int) :
+    ∀ (steps : List (α × Rat)) (lab : Arr Nat) (iter : Int) (best : Option Best) (r : Option Best × Int),
+      (∀ lab a lab' x, (a, x) ∈ steps → assoc lab a = some lab' → P lab') →
+      (∀ b, best = some b → P b.lab) → iter ≤ maxIter →
+      outerLoop assoc maxIter steps lab iter best = some r →
+      (∀ b, r.1 = some b → P b.lab) ∧ r.2 ≤ maxIter := by
+  intro steps
+  induction steps with
+  | nil =>
+    intro lab iter best r _ hb hi h
+    simp only [outerLoop] at h
+    split at h
+    · cases h
+    · cases h; exact ⟨hb, hi⟩
+  | cons st rest ih =>
+    intro lab iter best r hassoc hb hi h
+    obtain ⟨a, inertia⟩ := st
+    simp only [outerLoop] at h
+    by_cases hg : C07.outerGuard iter maxIter = true
+    · rw [if_pos hg] at h
+      rw [outerGuard_iff] at hg
+      cases hl : assoc lab a with
+      | none => rw [hl] at h; cases h
+      | some lab' =>
+        rw [hl] at h
+        simp only [] at h
+        have hP := hassoc lab a lab' inertia (List.mem_cons_self ..) hl
+        have hi' : C07.iterNext iter ≤ maxIter := by rw [iterNext_eq]; omega
+        have hb' : ∀ b, updateBest best lab' inertia (C07.iterNext iter) = some b → P b.lab := by
+          intro b hbb
+          unfold updateBest at hbb
+          split at hbb
+          · cases hbb; exact hP
+          · exact hb b hbb
+        split at h
+        · cases h; exact ⟨hb', hi'⟩
+        · exact ih lab' _ _ r (fun lab a lab' x hx => hassoc lab a lab' x (List.mem_cons_of_mem _ hx)) hb' hi' h
+    · rw [if_neg hg] at h; cases h; exact ⟨hb, hi⟩
+
+theorem argminRow_min (row : Nat → Int) (k : Nat) : ∀ c, c < k → row (argminRow row k) ≤ row c := by
+  induction k with
+  | zero => intro c hc; omega
+  | succ k ih =>
+    intro c hc
+    simp only [argminRow]
+    by_cases e : k = 0
+    · subst e
+      have : c = 0 := by omega
+      subst this; simp
+    · rw [if_neg e]
+      by_cases hc' : c = k
+      · subst hc'
+        split <;> omega
+      · have := ih c (by omega)
+        split <;> omega
+
 /-! ### concrete witnesses used by Properties/C07.lean -/
 
 def matOfLists (m : List (List Int)) : Mat := Arr.ofList (m.map (fun r => Arr.ofList r 0)) (Arr.ofList [] 0)
@@ -725,5 +794,12 @@ def distSizes (n k : Nat) (limit leftover : Int) (D : Mat) (prefs : Arr (List Na
   match assocDistance n k limit leftover D prefs passes eps perm with
   | some lab => (List.range k).map (hist lab n)
   | none => []
+
+/-- sizes of `best_labels` and the returned `iter` of a run of `constraint_kmeans` (`none` = failed) -/
+def fitSizes {α} (assoc : Arr Nat → α → Option (Arr Nat)) (n k : Nat) (maxIter : Int) (lab0 : Arr Nat) (iter0 : Int)
+    (first : α) (steps : List (α × Rat)) : Option (List Nat × Int) :=
+  match constraintKMeans assoc maxIter lab0 iter0 first steps with
+  | some (lab, it) => some ((List.range k).map (hist lab n), it)
+  | none => none
 
 end MlVerif.Balance
